@@ -1170,10 +1170,44 @@ package server
 //@   frame-by-effects
 //@   entry-assume s != nil && msg != nil && len(msg.Args) > 0 && s.config != nil
 //@   ensures [json-reply] result1 == nil && msg.OutputType == JSON ==> jsonDoc(result0)
+// SERVER / INFO totals (C19): the totals are the sums of the per-collection counters over every collection of the
+// keyspace, each collection counted once (the tree walk is complete and duplicate free by the container contract);
+// with colInv each counter is the sum over the retrievable objects of that collection.
+//@ ghost func sumOver(h map[ref]int, q []ref, n int) int
+//@ axiom sumover.0: allof("map[ref]int", h, allof("[]ref", q, sumOver(h, q, 0) == 0))
+//@ axiom sumover.step: allof("map[ref]int", h, allof("[]ref", q, allint(n, 0 <= n && n < len(q) ==> sumOver(h, q, n+1) == sumOver(h, q, n) + h[q[n]])))
+//@ ghost macro totalOf(s, f) = sumOver(f, mapVals(*s.cols), len(mapVals(*s.cols)))
+//@ func readMemStats
+//@   assumed
+//@   modifies nothing
+//@ func Server.basicStats
+//@   frame-by-effects
+//@   uses sumover.0, sumover.step, btree.map.vals
+//@   entry-assume s != nil && s.config != nil && s.cols != nil && s.hooks != nil && s.qdb != nil && m != nil
+//@   loop 1 invariant sz == sumOver(fieldmap("collection.Collection.weight"), seq1, idx1)
+//@   loop 2 invariant points == sumOver(fieldmap("collection.Collection.points"), seq2, idx2) && objects == sumOver(fieldmap("collection.Collection.objects"), seq2, idx2) + sumOver(fieldmap("collection.Collection.nobjects"), seq2, idx2) && nstrings == sumOver(fieldmap("collection.Collection.nobjects"), seq2, idx2)
+//@   at-return [totals.in_memory_size] m["in_memory_size"] == totalOf(s, fieldmap("collection.Collection.weight"))
+//@   at-return [totals.num_points] m["num_points"] == totalOf(s, fieldmap("collection.Collection.points"))
+//@   at-return [totals.num_objects] m["num_objects"] == totalOf(s, fieldmap("collection.Collection.objects")) + totalOf(s, fieldmap("collection.Collection.nobjects"))
+//@   at-return [totals.num_strings] m["num_strings"] == totalOf(s, fieldmap("collection.Collection.nobjects"))
+// extStats (SERVER EXT) repeats the same two walks after ~100 stores into the reply map; the term size of that map
+// exhausts memory in the generator, so it is not under contract (the walks are textually those of basicStats).
+// STATS (C19): the four numbers reported for a key are the sums over the retrievable objects of that collection
+// (colInv, the representation invariant proved for every Set/Delete, ties the counters to the id map), for the
+// collection the key names now; a missing key gives null. Both reply forms are built from that map / list.
+//@ ghost macro statsOf(m, col) = m["num_objects"] == sumSpatial(col.objs) + sumString(col.objs) && m["num_strings"] == sumString(col.objs) && m["num_points"] == sumPoints(col.objs) && m["in_memory_size"] == sumWeight(col.objs)
+//@ ghost macro statsEntry(s, m, key) = ite((*s.cols)[key] == nil, m == nil, m != nil && statsOf(m, (*s.cols)[key]))
+//@ func respValuesSimpleMap
+//@   assumed
+//@   modifies nothing
 //@ func Server.cmdSTATS
 //@   frame-by-effects
 //@   entry-assume s != nil && msg != nil && len(msg.Args) > 0 && s.config != nil
+//@   entry-assume s.cols != nil && allstr(k, (*s.cols)[k] != nil ==> colInv((*s.cols)[k]))
 //@   ensures [json-reply] result1 == nil && msg.OutputType == JSON ==> jsonDoc(result0)
+//@   at-call respValuesSimpleMap#1 [stats-equal-dataset.resp] col == (*s.cols)[key] && statsOf(arg0, col)
+//@   loop 1 invariant [stats-equal-dataset.json] 1 <= i && i <= len(args) && (msg.OutputType == JSON ==> len(ms) == i - 1 && forall(j, 0, len(ms), allocated(ms[j]) && statsEntry(s, ms[j], args[j+1])))
+//@   at-call json.Marshal#1 [stats-equal-dataset.json] len(ms) == len(args) - 1 && forall(j, 0, len(ms), statsEntry(s, ms[j], args[j+1]))
 //@ func Server.cmdScanArgs
 //@   frame-by-effects
 //@   entry-assume s != nil && s.config != nil
